@@ -142,7 +142,8 @@ pub mod authorizer {
         //@ ensures allow_first: r is Ok ==> first_policy(*old(self), r->Ok_0 as int) && old(self).policies@[r->Ok_0 as int].kind == PolicyKind::Allow
         //@ ensures no_policy: r is Err && r->Err_0 is FailedLogic && r->Err_0->FailedLogic_0 is NoMatchingPolicy ==> forall|j: int| 0 <= j < old(self).policies@.len() ==> !pol_matches(*old(self), j)
         //@ ensures unauthorized: r is Err && r->Err_0 is FailedLogic && r->Err_0->FailedLogic_0 is Unauthorized ==> (match r->Err_0->FailedLogic_0->Unauthorized_policy { error::MatchedPolicy::Allow(i) => first_policy(*old(self), i as int) && old(self).policies@[i as int].kind == PolicyKind::Allow, error::MatchedPolicy::Deny(i) => first_policy(*old(self), i as int) && old(self).policies@[i as int].kind == PolicyKind::Deny })
-        //@ ghost before_tail :: proof { if errors@.len() == 0 { assert(authz_checks_ok(*old(self))); if old(self).blocks is Some { assert(authority_checks_ok(*old(self))); assert forall|b: int, j: int| 0 <= b < old(self).blocks->Some_0@.len() && 0 <= j < old(self).blocks->Some_0@[b].checks@.len() implies #[trigger] block_check_ok(*old(self), b, j) by { if b == 0 { assert(block_check_ok(*old(self), 0, j)); } } } } }
+        //@ ghost body_start :: let ghost mut reads: int = 0; let ghost mut evals: int = 0;
+        //@ ghost before_tail :: proof { assert(reads == evals); } proof { if errors@.len() == 0 { assert(authz_checks_ok(*old(self))); if old(self).blocks is Some { assert(authority_checks_ok(*old(self))); assert forall|b: int, j: int| 0 <= b < old(self).blocks->Some_0@.len() && 0 <= j < old(self).blocks->Some_0@[b].checks@.len() implies #[trigger] block_check_ok(*old(self), b, j) by { if b == 0 { assert(block_check_ok(*old(self), 0, j)); } } } } }
         //@ ghost before "let mut i = 0; while i < self.authorizer_block_builder.checks" :: proof { lemma_tset(authorizer_trusted_origins.0.inner@, authorizer_scopes@, default_trust(), usize::MAX, self.public_key_to_block_id@); assert(authorizer_scopes@ =~= conv_scopes(old(self).authorizer_block_builder.scopes@)); }
         //@ loop 0 invariant frame: frame_eq(*self, *old(self)) && i <= self.authorizer_block_builder.checks@.len()
         //@ loop 0 invariant sound: errors@.len() == 0 ==> forall|ii: int| 0 <= ii < i ==> #[trigger] authz_check_ok(*old(self), ii)
@@ -153,7 +154,7 @@ pub mod authorizer {
         //@ loop 1 invariant_except_break flag: successful <==> (check.kind is Reject && verif_k0 > 0)
         //@ loop 1 ensures done: successful ==> authz_check_ok(*old(self), i as int)
         //@ loop 1 decreases check.queries@.len() - verif_k0
-        //@ ghost before "let res = match check.kind {" #0 :: proof { lemma_tset(rule_trusted_origins.0.inner@, query.scopes@, authorizer_trusted_origins.0.inner@, usize::MAX, self.public_key_to_block_id@); }
+        //@ ghost before "let res = match check.kind {" #0 :: proof { evals = evals + 1; } proof { lemma_tset(rule_trusted_origins.0.inner@, query.scopes@, authorizer_trusted_origins.0.inner@, usize::MAX, self.public_key_to_block_id@); }
         //@ loop 2 invariant frame: frame_eq(*self, *old(self)) && j <= blocks@[0].checks@.len()
         //@ loop 2 invariant sound: errors@.len() == 0 ==> forall|jj: int| 0 <= jj < j ==> #[trigger] block_check_ok(*old(self), 0, jj)
         //@ loop 2 invariant carry: errors@.len() == 0 ==> authz_checks_ok(*old(self))
@@ -166,7 +167,7 @@ pub mod authorizer {
         //@ loop 3 invariant carry: errors@.len() == 0 ==> authz_checks_ok(*old(self))
         //@ loop 3 decreases check.queries@.len() - verif_k1
         //@ ghost before "let mut verif_k1 = 0;" :: proof { lemma_tset(authority_trusted_origins.0.inner@, blocks@[0].scopes@, default_trust(), 0usize, self.public_key_to_block_id@); }
-        //@ ghost before "let res = match check.kind {" #1 :: proof { lemma_tset(rule_trusted_origins.0.inner@, query.scopes@, authority_trusted_origins.0.inner@, 0usize, self.public_key_to_block_id@); }
+        //@ ghost before "let res = match check.kind {" #1 :: proof { evals = evals + 1; } proof { lemma_tset(rule_trusted_origins.0.inner@, query.scopes@, authority_trusted_origins.0.inner@, 0usize, self.public_key_to_block_id@); }
         //@ loop 4 invariant frame: frame_eq(*self, *old(self)) && i <= self.policies@.len()
         //@ loop 4 invariant_except_break none_before: policy_result is None && forall|jj: int| 0 <= jj < i ==> !pol_matches(*old(self), jj)
         //@ loop 4 ensures decided: frame_eq(*self, *old(self)) && (match policy_result { None => forall|jj: int| 0 <= jj < old(self).policies@.len() ==> !pol_matches(*old(self), jj), Some(Ok(p)) => first_policy(*old(self), p as int) && old(self).policies@[p as int].kind == PolicyKind::Allow, Some(Err(p)) => first_policy(*old(self), p as int) && old(self).policies@[p as int].kind == PolicyKind::Deny })
@@ -174,7 +175,7 @@ pub mod authorizer {
         //@ loop 5 invariant frame: frame_eq(*self, *old(self)) && i < self.policies@.len() && verif_k2 <= policy.queries@.len()
         //@ loop 5 invariant_except_break none_so_far: policy_result is None && forall|k: int| 0 <= k < verif_k2 ==> !q_one(self.world, conv_rule(#[trigger] policy.queries@[k]), usize::MAX, authz_dflt(*old(self)), self.public_key_to_block_id@)
         //@ loop 5 decreases policy.queries@.len() - verif_k2
-        //@ ghost before "let res = self.world.query_match(" :: proof { lemma_tset(rule_trusted_origins.0.inner@, query.scopes@, authorizer_trusted_origins.0.inner@, usize::MAX, self.public_key_to_block_id@); }
+        //@ ghost before "let res = self.world.query_match(" :: proof { evals = evals + 1; } proof { lemma_tset(rule_trusted_origins.0.inner@, query.scopes@, authorizer_trusted_origins.0.inner@, usize::MAX, self.public_key_to_block_id@); }
         //@ ghost before "break 'policies_test;" :: proof { assert(q_one(self.world, conv_rule(policy.queries@[verif_k2 as int]), usize::MAX, authz_dflt(*old(self)), self.public_key_to_block_id@)); assert(pol_matches(*old(self), i as int)); }
         //@ loop 6 invariant frame: frame_eq(*self, *old(self)) && i <= blocks@.len() - 1
         //@ loop 6 invariant sound: errors@.len() == 0 ==> forall|bb: int, jj: int| 1 <= bb < i + 1 && 0 <= jj < blocks@[bb].checks@.len() ==> #[trigger] block_check_ok(*old(self), bb, jj)
@@ -195,7 +196,20 @@ pub mod authorizer {
         //@ loop 8 invariant carry: errors@.len() == 0 ==> authz_checks_ok(*old(self)) && authority_checks_ok(*old(self))
         //@ loop 8 decreases check.queries@.len() - verif_k3
         //@ ghost before "let mut j = 0; while j < block.checks.len()" :: proof { lemma_tset(block_trusted_origins.0.inner@, blocks@[i + 1].scopes@, default_trust(), (i + 1) as usize, self.public_key_to_block_id@); }
-        //@ ghost before "let res = match check.kind {" #2 :: proof { lemma_tset(rule_trusted_origins.0.inner@, query.scopes@, block_trusted_origins.0.inner@, (i + 1) as usize, self.public_key_to_block_id@); }
+        //@ ghost before "let res = match check.kind {" #2 :: proof { evals = evals + 1; } proof { lemma_tset(rule_trusted_origins.0.inner@, query.scopes@, block_trusted_origins.0.inner@, (i + 1) as usize, self.public_key_to_block_id@); }
+        //@ ghost before "if now >= time_limit {" #0 :: proof { reads = reads + 1; }
+        //@ ghost before "if now >= time_limit {" #1 :: proof { reads = reads + 1; }
+        //@ ghost before "if now >= time_limit {" #2 :: proof { reads = reads + 1; }
+        //@ ghost before "if now >= time_limit {" #3 :: proof { reads = reads + 1; }
+        //@ loop 0 invariant clock: reads == evals
+        //@ loop 1 invariant clock: reads == evals
+        //@ loop 2 invariant clock: reads == evals
+        //@ loop 3 invariant clock: reads == evals
+        //@ loop 4 invariant clock: reads == evals
+        //@ loop 5 invariant clock: reads == evals
+        //@ loop 6 invariant clock: reads == evals
+        //@ loop 7 invariant clock: reads == evals
+        //@ loop 8 invariant clock: reads == evals
         //@end
     }
 }
@@ -296,4 +310,5 @@ pub mod aspec {
 //@canary query-all-origin :: token::authorizer::Authorizer::query_all_inner :: .query_rule(rule, 0, &rule_trusted_origins, &self.symbols)?; ==>> .query_rule(rule, usize::MAX, &rule_trusted_origins, &self.symbols)?;
 //@canary-requires token::authorizer::Authorizer::query_inner
 //@canary-requires token::authorizer::Authorizer::query_all_inner
+//@canary clock-read-after-break :: token::authorizer::Authorizer::authorize_inner :: let now = Instant::now();\n                if now >= time_limit {\n                    return Err(error::Token::RunLimit(error::RunLimit::Timeout));\n                }\n\n                if res {\n                    match policy.kind {\n                        PolicyKind::Allow => policy_result = Some(Ok(i)),\n                        PolicyKind::Deny => policy_result = Some(Err(i)),\n                    };\n                    break 'policies_test;\n                } ==>> if res {\n                    match policy.kind {\n                        PolicyKind::Allow => policy_result = Some(Ok(i)),\n                        PolicyKind::Deny => policy_result = Some(Err(i)),\n                    };\n                    break 'policies_test;\n                }\n\n                let now = Instant::now();\n                if now >= time_limit {\n                    return Err(error::Token::RunLimit(error::RunLimit::Timeout));\n                }
 //@canary-requires token::authorizer::Authorizer::authorize_inner
